@@ -175,6 +175,9 @@ type Op struct {
 	Encoding    Str    `json:"encoding,omitempty"`
 	Meta        []KV   `json:"meta,omitempty"`
 	Data        Blob   `json:"data,omitempty"`
+	// Reject marks a call the writer must refuse (unknown channel / schema, schema
+	// id 0): it must return an error and leave no trace in the output.
+	Reject bool `json:"reject,omitempty"`
 }
 
 // Workload is a legal writer call sequence.
